@@ -78,6 +78,14 @@ func Init(id string) *Run {
 		}
 	}
 	r.Deadline = r.Start.Add(budget)
+	r.ReloadKnown()
+	return r
+}
+
+// ReloadKnown (re)reads the known-findings entries for r.ID.
+func (r *Run) ReloadKnown() {
+	id := r.ID
+	r.known = nil
 	if r.Known != "" {
 		if b, err := os.ReadFile(r.Known); err == nil {
 			var kf knownFile
@@ -91,7 +99,6 @@ func Init(id string) *Run {
 			}
 		}
 	}
-	return r
 }
 
 func (r *Run) Thorough() bool { return r.Tier == "thorough" }
